@@ -20,6 +20,17 @@ CLAIMED = {
         "6 C01",
         TECH,
     ),
+    "C02": (
+        "Bounded solver-based check of pipeline(...), Pipeline.run(full_output) and Pipeline.func on 9 function tables (chain, diamond, tuple-output "
+        "diamond with default and bound value, nullary function, shared defaulted parameter, disconnected components, tuple leaf, renamed "
+        "parameters, bound roots): for every output, every valid set of supplied names (roots, interior cuts, mixed; computed by an independent "
+        "evaluator), every listing order and ALL integer values, the result equals the recursive composition (bound > keyword > upstream > "
+        "default), exactly the needed functions run once and dependencies first, full_output holds the intermediates, surplus keywords raise; "
+        "arg_combinations/root_args are compared with the semantic definition. One recorded finding is pinned.",
+        "Trusted: z3, CrossHair path exhaustion and builtin models. Outside: > 5 functions, non-integer values, lazy (C18), cache (C09), scopes (C10).",
+        "6 C02",
+        TECH,
+    ),
     "C07": (
         "Bounded solver-based check: normalize_key and select_by_mask are confirmed over all paths for every mask of rank <= 3 with "
         "unbounded integer keys and axis sizes; DictArray and FileArray operation sequences (two dumps, one read of every kind, "
